@@ -199,3 +199,26 @@ Example C02_missing_right_operand_example :
              | _ => false
              end) [OpEq; OpNq; OpGt; OpGtq; OpLt; OpLtq] = true.
 Proof. exact missing_right_example. Qed.
+
+(* ---- the parser's side of "exactly the branch" (Model/Parser.v, Proofs/ParserPieces.v): the nodes
+        between an if tag and its end tag are split at the else tag into the then- and the
+        else-branch (either may be empty); the cases of a switch collect what follows them, text
+        before the first case is dropped and a last case without content leaves no node -- what
+        Spec/Compile.v (drop_empty_tail) says ---- *)
+From DT Require Import Model.Regex Model.ParserRe Model.Parser Proofs.ParserPieces.
+
+Theorem C02_parser_if_else : forall a b, no_div a = true -> no_div b = true ->
+  cond_children (a ++ NOther 16 :: b) = [NBlock BTrue no_case a; NBlock BFalse no_case b].
+Proof. exact cond_children_else. Qed.
+Print Assumptions C02_parser_if_else.
+
+Theorem C02_parser_if_without_else : forall a, no_div a = true -> a <> [] ->
+  cond_children a = [NBlock BTrue no_case a].
+Proof. exact cond_children_no_else. Qed.
+Print Assumptions C02_parser_if_without_else.
+
+Theorem C02_parser_switch_groups : forall pre groups, no_heads pre = true -> groups_ok groups = true ->
+  rollup (pre ++ flat_map (fun g => fst g :: snd g) groups)
+  = Spec.Compile.drop_empty_tail (map (fun g => add_children (fst g) (snd g)) groups).
+Proof. exact rollup_groups. Qed.
+Print Assumptions C02_parser_switch_groups.
